@@ -1,7 +1,7 @@
 CFG = {
     "group": "core",
     "level": "proof",
-    "coq_targets": ["Properties/C01.vo"],
+    "coq_targets": ["Properties/C01.vo", 'ParamsTie.vo'],
     "partial": "C01_map_round_trip chains builder -> format specification -> reader for every key list, value assignment and cache geometry; C01_build_set covers sets with repeated keys. The four byte-level statements of CodecSpec.v (what compile_node writes parses back; Node::new = the specification on parsed nodes) are premises BY NAME of these theorems until proofs/NodeProofs*.v is merged; two side conditions on the produced file (every element is a byte; traversal fuel 2*tree_size+2 <= 2^64) are premises too and are being discharged (builder output is trimmed). Until then those links are covered by the correspondence: implementation bytes = model bytes, and the format specification decodes the implementation's bytes (C09).",
     "correspondence": "bytes written by fst::raw::Builder / MapBuilder / SetBuilder / from_iter / extend_iter / extend_stream = FstV.Builder.b_finish byte for byte (per front end, per cache geometry via hook H1), bytes_written trace, cache counters (hook H2); stream/len/is_empty of the implementation = content specified by FstV.Fst.spec_content",
     "rule": "key sets: every subset of the 7 strings of length <= 2 over {a,b}, {00,FF}, {a,FF} x value patterns (zero, index, reversed, power of 256, boundary mix, ...) x front ends x geometries {(10000,2),(1,1),(1,2),(2,2),(3,3),(0,0),(7,4)}; boundary families (fan-out 0,1,2,3,31..34,63..65,127,128,255,256 at root / depth 1 / with tails; keys of length 1..1000; suffix families); random key sets up to 300 keys; sets with repeated keys; non-trivial = at least two operations",
